@@ -680,3 +680,62 @@ Proof.
         destruct (IH _ _ _ _ Hc' W) as [loc [Hw Ht]]. exists loc. split; [|exact Ht].
         rewrite rev_app_distr in Hw. exact Hw.
 Qed.
+
+(* ------------------------------------------------------------------ what a load depends on *)
+
+Lemma open_archive_auto_full k ms n d u :
+  NoDup (map fst ms) -> first_non_decoy (map fst ms) = Some n -> In (n, d) ms ->
+  open_container k (Archive ms) None u = Ok (d, if u then RUser else RZip ms n).
+Proof.
+  intros ND F Hin. unfold open_container. rewrite (select_first_non_decoy _ _ F).
+  rewrite (fs_find_nodup _ _ _ ND Hin). reflexivity.
+Qed.
+
+Lemma open_archive_named_full k ms n d u :
+  NoDup (map fst ms) -> is_empty_name n = false -> In (n, d) ms ->
+  open_container k (Archive ms) (Some n) u = Ok (d, if u then RUser else RZip ms n).
+Proof.
+  intros ND E Hin. unfold open_container. rewrite select_by_name, E.
+  assert (M : mem n (map fst ms) = true) by (apply mem_In, in_map_iff; exists (n, d); auto).
+  rewrite M. simpl. rewrite (fs_find_nodup _ _ _ ND Hin). reflexivity.
+Qed.
+
+(* with a user loader every source kind yields literally the same (bytes, behaviour) pair *)
+Theorem same_model_user {model} (loader : N -> (name -> outcome N) -> model) d f ms n m k1 k2 z uf disk1 disk2 disk3 disk4 :
+  NoDup (map fst ms) -> first_non_decoy (map fst ms) = Some n -> In (n, d) ms ->
+  is_empty_name m = false -> In (m, d) ms ->
+  let expected := Ok (loader d (fun p => match uf p with Some x => Ok x | None => Raise DaeBrokenRef end)) in
+  load_model loader (FromPath f) (Plain d) z (Some uf) disk1 = expected /\
+  load_model loader FromFileObj (Plain d) z (Some uf) disk2 = expected /\
+  load_model loader k1 (Archive ms) None (Some uf) disk3 = expected /\
+  load_model loader k2 (Archive ms) (Some m) (Some uf) disk4 = expected.
+Proof.
+  intros ND F Hn Em Hm. unfold load_model. cbv beta iota. repeat split; try reflexivity.
+  - rewrite (open_archive_auto_full k1 ms n d true ND F Hn). reflexivity.
+  - rewrite (open_archive_named_full k2 ms m d true ND Em Hm). reflexivity.
+Qed.
+
+(* without a user loader: a document at location m, in an archive and in a directory tree
+   holding the same files under the same names (the fsys [ms] is both the member table and the
+   disk), gives the same model for EVERY loader: the zip resolver and the disk resolver are the
+   same function of the auxiliary path (posixpath = os.path) *)
+Theorem same_model_mirror {model} (loader : N -> (name -> outcome N) -> model) d ms m k :
+  NoDup (map fst ms) -> is_empty_name m = false -> In (m, d) ms ->
+  load_model loader (FromPath m) (Plain d) None None ms =
+  load_model loader k (Archive ms) (Some m) None ms.
+Proof.
+  intros ND Em Hin. unfold load_model. cbv beta iota.
+  rewrite (open_archive_named_full k ms m d false ND Em Hin). reflexivity.
+Qed.
+
+(* a document that references no auxiliary file: the same model from every source kind *)
+Theorem same_model_no_aux {model} (lm : N -> model) d f ms n k z disk1 disk2 disk3 :
+  NoDup (map fst ms) -> first_non_decoy (map fst ms) = Some n -> In (n, d) ms ->
+  let loader := fun d (_ : name -> outcome N) => lm d in
+  load_model loader (FromPath f) (Plain d) z None disk1 = Ok (lm d) /\
+  load_model loader FromFileObj (Plain d) z None disk2 = Ok (lm d) /\
+  load_model loader k (Archive ms) None None disk3 = Ok (lm d).
+Proof.
+  intros ND F Hn loader. unfold load_model. cbv beta iota. repeat split; try reflexivity.
+  rewrite (open_archive_auto_full k ms n d false ND F Hn). reflexivity.
+Qed.
